@@ -9,7 +9,8 @@ package main
 //                end <inUseRaw> <waiters>
 //   c05.pipe  <kind> <cap> <parallel> <nsources> <k>…  a real pipeline: harness input, one harness action,
 //        devnull output; k per event: p pass | d discard | h hold (propagated by the next event or a
-//        time-out) | x undecodable | r refused by PassEvent
+//        time-out) | x undecodable | r refused by PassEvent | s split (Spawn: the pooled event becomes the
+//        child-parent, two non-pooled children go to the output)
 //        result: e <off> <k> <finalize flags…> ; …  maxok <0|1> end <inUseRaw> <waiters>
 
 import (
@@ -97,6 +98,10 @@ func execPoolFree(t *hx.Toks) string {
 					}
 					runtime.Gosched()
 				}
+				if rng.Chance(1, 3) {
+					// a split parent: the kind of a pooled event may change between get and back
+					e.SetChildParentKind()
+				}
 				emit(fmt.Sprintf("b%d", r))
 				held.Add(-1)
 				v.Back(e)
@@ -164,7 +169,17 @@ func (a *pipeAct) Do(e *pipeline.Event) pipeline.ActionResult {
 	if n := e.Root.Dig("k"); n != nil {
 		k = n.AsString()
 	}
+	if e.IsChildKind() {
+		return pipeline.ActionPass
+	}
 	switch k {
+	case "s":
+		// like the split action: the pooled event becomes the parent of freshly allocated children
+		a.flush()
+		if arr := e.Root.Dig("a"); arr != nil && arr.IsArray() {
+			a.ctl.Spawn(e, arr.AsArray())
+		}
+		return pipeline.ActionBreak
 	case "d":
 		a.flush()
 		return pipeline.ActionDiscard
@@ -257,7 +272,7 @@ func execPipe(t *hx.Toks) string {
 	p.Start()
 	streamed := 0
 	for _, k := range kinds {
-		if k == "p" || k == "d" || k == "h" {
+		if k == "p" || k == "d" || k == "h" || k == "s" {
 			streamed++
 		}
 	}
@@ -268,6 +283,8 @@ func execPipe(t *hx.Toks) string {
 			var body string
 			if k == "x" {
 				body = "{\"k\":\"x\",,bad\n"
+			} else if k == "s" {
+				body = fmt.Sprintf("{\"k\":\"s\",\"stream\":\"s%d\",\"a\":[{\"c\":1},{\"c\":2}]}\n", i%2)
 			} else {
 				body = fmt.Sprintf("{\"k\":%q,\"stream\":\"s%d\"}\n", k, i%2)
 			}
@@ -365,13 +382,14 @@ func genC05(w *bufio.Writer, rng *hx.Rng, tier string) {
 	// whole pipeline
 	fixed := []string{
 		"p", "d", "x", "r", "h", "h p", "p h", "h h p", "x r p d", "h d", "p p p p p p p p", "h x p", "r h",
+		"s", "s s s s s p", "h s p", "s h s d s x s r s p",
 	}
 	for _, k := range []string{"lowmem", "std"} {
 		for _, f := range fixed {
 			fmt.Fprintf(w, "c05.pipe %s %d 0 1 %s\n", k, 1+len(f)%3, f)
 		}
 	}
-	alphabet := []string{"p", "p", "p", "d", "d", "h", "x", "r"}
+	alphabet := []string{"p", "p", "p", "d", "d", "h", "x", "r", "s", "s"}
 	for i := 0; i < npipe; i++ {
 		k := []string{"lowmem", "std"}[rng.Intn(2)]
 		c := rng.Range(1, 8)
